@@ -226,3 +226,43 @@ def eq_structure(F, body):
                 if ret != ['const:true'] or executed != set(by_bb):
                     return fields, False, 'result is not the conjunction of the field comparisons'
     return fields, True, ''
+
+
+# ---- user code / blocking sites ---------------------------------------------------
+
+USER_TRAITS = ('source::Source', 'asset::Compound', 'asset::Asset', 'loader::Loader', 'dirs::DirLoadable')
+FN_TRAIT_CALLS = ('std::ops::FnOnce::call_once', 'std::ops::FnMut::call_mut', 'std::ops::Fn::call')
+
+
+def user_call_kind(site):
+    """'indirect' (fn pointer / dyn Fn / generic F: Fn*), 'trait:<T>' for an
+    unresolved call into a user-implementable trait, else None"""
+    t = site.term
+    if t.get('indirect'):
+        return 'indirect'
+    c = site.callee
+    if not c:
+        return 'indirect'
+    if c.defp in FN_TRAIT_CALLS:
+        if c.resolved is None or c.rkind in ('virtual', 'fnptr_shim', 'other'):
+            return 'indirect'
+        if c.rkind == 'closure_once_shim':
+            return None
+        if not c.rlocal:
+            return 'indirect'
+        return None
+    if c.trait in USER_TRAITS and (c.resolved is None or c.rkind == 'virtual' or c.resolved == c.defp):
+        return 'trait:' + c.trait
+    return None
+
+
+BLOCKING = re.compile(
+    r'^crossbeam_channel::(Sender::<T>::send|Receiver::<T>::recv|Receiver::<T>::recv_timeout|Select::<.a>::(ready|select|ready_timeout|select_timeout))$'
+    r'|^std::sync::Condvar::wait|^parking_lot::Condvar::wait|^utils::private::Condvar::wait_while$'
+    r'|^std::thread::(sleep|park)|JoinHandle::<T>::join$'
+    r'|^std::sync::mpsc::')
+LOCK_ACQUIRE = re.compile(
+    r'^utils::private::(RwLock::<T>::(read|write)|Mutex::<T>::lock)$'
+    r'|^std::sync::(RwLock|Mutex)::<T>::(read|write|lock)$|^parking_lot::|lock_api::'
+    r'|^std::cell::RefCell::<T>::(borrow|borrow_mut)$')
+GUARD_TY = re.compile(r'^(std::sync::(RwLockReadGuard|RwLockWriteGuard|MutexGuard)|lock_api::\w+Guard|parking_lot::\w+Guard|std::cell::(Ref|RefMut))<')
